@@ -160,6 +160,22 @@ def repr_cases(ctx, n):
 # ---------------------------------------------------------------------------------------
 
 POSITIONS = ["meta_alias", "annotated_alias", "config_alias", "typeddict_key", "discriminator_field", "forbid_extra_keys", "literal_str", "literal_bytes"]
+# positions whose strings must be Python identifiers (namedtuple member names used as keys under
+# namedtuple_as_dict / serialize="as_dict"): exotic but legal identifiers, among them ones that are not
+# NFKC-stable (the compiler would normalise them if they were spliced as identifier tokens)
+ID_POSITIONS = ["namedtuple_key", "namedtuple_key_field_option"]
+ID_FIXED = ["x", "µ", "ª", "ﬁeld", "ｘ", "ſ", "ǆ", "𝐱", "K", "Å", "é", "日本", "ß", "class_", "a1", "ℌ", "ⅸ", "µ_ª"]
+ID_CHARS = list("abcXYZ_019") + ["µ", "ª", "ﬁ", "ｘ", "ſ", "ǆ", "𝐱", "K", "Å", "é", "日", "ß", "ℌ", "ⅸ", "ö", "ǅ"]
+
+
+def rand_identifier(rng):
+    import keyword
+
+    for _ in range(50):
+        s = "".join(rng.choice(ID_CHARS) for _ in range(rng.randint(1, 6)))
+        if s.isidentifier() and not keyword.iskeyword(s) and not s.startswith("_"):
+            return s
+    return "x"
 
 
 def end_to_end(pos, s, idx):
@@ -234,6 +250,25 @@ def end_to_end(pos, s, idx):
                 except MissingDiscriminatorError as e:
                     if e.field_name != s:
                         return f"MissingDiscriminatorError names {e.field_name!r}"
+        elif pos in ID_POSITIONS:
+            import collections
+
+            nt = collections.namedtuple(name + "_NT", [s, "other"])
+            nt.__module__ = __name__
+            globals()[name + "_NT"] = nt
+            if pos == "namedtuple_key":
+                cls = mk({"p": nt}, None, {"namedtuple_as_dict": True})
+            else:
+                cls = mk({"p": nt}, {"p": dataclasses.field(metadata=field_options(serialize="as_dict", deserialize="as_dict"))}, None)
+            d = cls(nt(1, 2)).to_dict()
+            if d != {"p": {s: 1, "other": 2}} or list(d["p"].keys()) != [s, "other"]:
+                return f"namedtuple as dict serialized as {d!r}, expected key {s!r}"
+            r = cls.from_dict({"p": {s: 3, "other": 4}})
+            if tuple(r.p) != (3, 4):
+                return f"namedtuple as dict deserialized as {r!r}"
+            enc = BasicEncoder(cls).encode(cls(nt(5, 6)))
+            if enc != {"p": {s: 5, "other": 6}}:
+                return f"codec: namedtuple as dict serialized as {enc!r}"
         elif pos == "literal_str":
             t = typing.Literal[(s, "other")]
             if BasicDecoder(t).decode(s) != s or BasicEncoder(t).encode(s) != s:
@@ -251,6 +286,7 @@ def end_to_end(pos, s, idx):
     finally:
         globals().pop(name, None)
         globals().pop(name + "_S", None)
+        globals().pop(name + "_NT", None)
     if os.environ.pop(SENTINEL, None) is not None:
         return "SENTINEL FIRED: schema-supplied string was executed"
     return None
@@ -260,6 +296,8 @@ def e2e_cases(ctx, n):
     rng = ctx.rng
     fixed = [(p, s) for p in POSITIONS for s in PAYLOADS]
     rand = [(rng.choice(POSITIONS), rand_string(rng)) for _ in range(n)]
+    fixed += [(p, s) for p in ID_POSITIONS for s in ID_FIXED]
+    rand += [(rng.choice(ID_POSITIONS), rand_identifier(rng)) for _ in range(max(20, n // 8))]
     for pos, s in fixed + rand:
         case = {"position": pos, "string": s}
         if pos == "discriminator_field" and (not s or "\x00" in s):
